@@ -219,7 +219,10 @@ func (k Keeper) CalculateLendReward(ctx sdk.Context, amount string, rate sdk.Dec
 	effectiveRate := rate.Mul(yearsElapsed)
 	factor1 := sdk.OneDec().Add(effectiveRate)
 	indexGlobalCurrent := globalIndex.Mul(factor1)
-	factor2 := indexGlobalCurrent.Quo(globalIndex)
+	factor2 := factor1
+	if !globalIndex.IsZero() {
+		factor2 = indexGlobalCurrent.Quo(globalIndex)
+	}
 	liabilityCurrent := amt.Mul(factor2)
 
 	newAmount := liabilityCurrent.Sub(amt)
@@ -246,7 +249,10 @@ func (k Keeper) CalculateBorrowInterest(ctx sdk.Context, amount string, rate, re
 	effectiveRate := rate.Mul(yearsElapsed)
 	factor1 := sdk.OneDec().Add(effectiveRate)
 	indexGlobalCurrent := globalIndex.Mul(factor1)
-	factor2 := indexGlobalCurrent.Quo(globalIndex)
+	factor2 := factor1
+	if !globalIndex.IsZero() {
+		factor2 = indexGlobalCurrent.Quo(globalIndex)
+	}
 	liabilityCurrent := amt.Mul(factor2)
 
 	newAmount := liabilityCurrent.Sub(amt)
@@ -255,7 +261,10 @@ func (k Keeper) CalculateBorrowInterest(ctx sdk.Context, amount string, rate, re
 	reserveEffectiveRate := reserveRate.Mul(yearsElapsed)
 	reserveFactor1 := sdk.OneDec().Add(reserveEffectiveRate)
 	reserveIndexGlobalCurrent := reserveGlobalIndex.Mul(reserveFactor1)
-	reserveFactor2 := reserveIndexGlobalCurrent.Quo(reserveGlobalIndex)
+	reserveFactor2 := reserveFactor1
+	if !reserveGlobalIndex.IsZero() {
+		reserveFactor2 = reserveIndexGlobalCurrent.Quo(reserveGlobalIndex)
+	}
 	reserveLiabilityCurrent := amt.Mul(reserveFactor2)
 
 	newAmountReservePool := reserveLiabilityCurrent.Sub(amt)
